@@ -11,6 +11,9 @@ set_option linter.unusedSectionVars false
 namespace BHS.Chain
 variable {H : Type} [DecidableEq H]
 
+-- answers (`Except`) are compared by `decide` in the non-vacuity examples of Props/C08 and Props/C13
+deriving instance DecidableEq for Except
+
 /-! ### the page key lookup -/
 
 theorem find_merkle_none {s : Store H} {k : H} (h : ∀ r ∈ s, r.merkle ≠ k) :
@@ -83,6 +86,20 @@ theorem page_eq {s : Store H} {n : Nat} {key : Option H} {h : Int} {t : Row H}
 theorem page_error {s : Store H} {n : Nat} {key : Option H} {err : PageErr}
     (e : lastEvalHeight s key = .error err) : page s n key = .error err := by
   simp only [page, e]
+
+/-- a successful page: the key was resolved, there is a tip, the rows are `rootsAfter` -/
+theorem page_ok {s : Store H} {n : Nat} {key : Option H} {rows : List (Row H)} {k' : Option H}
+    (e : page s n key = .ok (rows, k')) :
+    ∃ h t, lastEvalHeight s key = .ok h ∧ getTip s = some t ∧ rows = rootsAfter s h n ∧ k' = pageKey t rows := by
+  cases e1 : lastEvalHeight s key with
+  | error err => rw [page_error e1] at e; cases e
+  | ok h =>
+    cases e2 : getTip s with
+    | none => simp only [page, e1, e2] at e; cases e
+    | some t =>
+      rw [page_eq e1 e2] at e
+      cases e
+      exact ⟨h, t, rfl, rfl, rfl, rfl⟩
 
 /-- every row of `rootsAfter` is a LONGEST_CHAIN row above the given height; at most `n` of them -/
 theorem mem_rootsAfter {s : Store H} {h : Int} {n : Nat} {r : Row H} (hr : r ∈ rootsAfter s h n) :
@@ -240,6 +257,50 @@ theorem stopHeight_lc {s : Store H} (hn : (s.map (·.hash)).Nodup) {r : Row H} (
     have h2' := List.find?_some e
     have h2 := of_decide_eq_true h2'
     rw [inj_of_nodup_map (·.hash) hn h1 hr h2.1]
+
+theorem stopHeight_pos {s : Store H} {stop : H} (h : stopHeight s stop ≠ 0) :
+    ∃ r ∈ s, r.st = .lc ∧ r.hash = stop ∧ r.height = stopHeight s stop := by
+  unfold stopHeight at h ⊢
+  cases e : s.find? (fun r => decide (r.hash = stop ∧ r.st = .lc)) with
+  | none => rw [e] at h; exact absurd rfl h
+  | some r =>
+    have h2' := List.find?_some e
+    have h2 := of_decide_eq_true h2'
+    exact ⟨r, List.mem_of_find?_eq_some e, h2.2, h2.1, rfl⟩
+
+/-- the effective stop height of `getHeaders` before the cap: the stop row's height, or "no stop" (= start + cap)
+    for the zero hash, an unknown / non-longest-chain hash and — the accident — a stop row of height 0 -/
+def ghStop (s : Store H) (zero : H) (loc : List H) (stop : H) : Nat :=
+  if stop = zero ∨ stopHeight s stop = 0 then startHeight s loc + Gen.maxCFHeadersPerMsg else stopHeight s stop
+
+theorem getHeaders_eq (s : Store H) (zero : H) {loc : List H} (stop : H) (hloc : loc ≠ []) :
+    getHeaders s zero loc stop =
+      if ghStop s zero loc stop ≤ startHeight s loc then .error .stopLower
+      else .ok (rangeLc s (startHeight s loc + 1)
+        (min (ghStop s zero loc stop) (startHeight s loc + Gen.maxCFHeadersPerMsg))) := by
+  have hne : loc.isEmpty = false := by
+    cases loc with
+    | nil => exact absurd rfl hloc
+    | cons _ _ => rfl
+  have hstop1 : (if (if stop = zero then startHeight s loc + Gen.maxCFHeadersPerMsg else stopHeight s stop) = 0
+        then startHeight s loc + Gen.maxCFHeadersPerMsg
+        else (if stop = zero then startHeight s loc + Gen.maxCFHeadersPerMsg else stopHeight s stop)) =
+      ghStop s zero loc stop := by
+    unfold ghStop
+    by_cases hz : stop = zero
+    · simp only [hz, if_true, true_or]
+      split <;> rfl
+    · simp only [hz, if_false, false_or]
+  simp only [getHeaders, hne, Bool.false_eq_true, if_false, hstop1]
+  generalize ghStop s zero loc stop = g
+  generalize startHeight s loc = st
+  generalize Gen.maxCFHeadersPerMsg = cap
+  by_cases hle : g ≤ st
+  · rw [if_pos hle, if_pos hle]
+  · rw [if_neg hle, if_neg hle]
+    have : (if cap < g - st then st + cap else g) = min g (st + cap) := by
+      split <;> omega
+    rw [this]
 
 /-! ### getheaders: the range -/
 
